@@ -15,6 +15,11 @@ def run(ctx):
         "layout without the torrent-id level: the torrent's own directory is the data directory itself, so damage to OTHER torrents' "
         "files inside the shared data directory (RemoveTorrent of a torrent named '.') is not counted",
         "tar entry names containing NUL cannot be encoded by archive/tar and are skipped (counted in driver stats)",
+        "archives as sequences of typed entries (family TL): a symbolic / hard link entry named inside the destination with a target "
+        "place inside or outside it (sibling directory, sentinel files one / two / three levels up, another torrent's directory, the "
+        "data directory, the destination itself; absolute and relative link names), followed by a regular or directory entry at or "
+        "below the link's name, a chain of two links, a harmless entry before; no link is planted in the sandbox by the driver itself; "
+        "the archive reaches readData directly (the HTTP handler in front of it and the sending side generateTar are not driven)",
         "alternative sources of a validated value (families U, V): name.utf-8 / path.utf-8 independent of the plain keys (absent, "
         "present-but-empty, harmless, dangerous), duplicate dictionary keys (alternative first / last), 'length' next to 'files', "
         "BitComet padding names with / without attr; run with NewInfo flags (utf8,pad) = (on,on) New+resume v3, (on,off) v2, (off,off) v1; "
@@ -55,8 +60,16 @@ def run(ctx):
                 if ok or "Invariant %s is violated" % inv not in out:
                     raise vlib.MachineryError("vacuity guard: the weakened duplicate check (%s) shows no hole in the model" % inv)
                 mark(ctx, cfg, inv)
+            # archives as sequences of typed entries: the name check is complete because the extraction as found never
+            # creates a link; recreating link entries (name checked only) lets a later entry be written through one
+            ctx.tlc_mc("MC_PathsTar", "MC_PathsTar.cfg", timeout=1800, workers=2)
+            ok, out = ctx.tlc_mc("MC_PathsTar", "MC_PathsTar_links.cfg", timeout=1800, workers=2, expect_ok=False)
+            if ok or "Invariant TarComplete is violated" not in out:
+                raise vlib.MachineryError("vacuity guard: extraction that recreates link entries shows no escape in the model")
+            mark(ctx, "MC_PathsTar_links.cfg", "TarComplete")
             if not ctx.quick():
                 ctx.tlc_mc("MC_PathsDup", "MC_PathsDup_big.cfg", timeout=3000, workers=4)
+                ctx.tlc_mc("MC_PathsTar", "MC_PathsTar_big.cfg", timeout=3000, workers=4)
         except Exception as ex:
             mc_err.append(ex)
 
@@ -68,7 +81,9 @@ def run(ctx):
     if getattr(ctx, "replay", None):
         rep = json.load(open(ctx.replay))
         init = rep["detail"]["init"]
-        if init.get("run") == "tar":
+        if init.get("run") == "tar" and init.get("arch"):
+            items = [{"kind": "tarseq", "arch": init["arch"], "pred": {}}]
+        elif init.get("run") == "tar":
             items = [{"kind": "tar", "entry": init["entry"], "pred": 0}]
         else:
             sym = dict(init["sym"])
@@ -129,15 +144,19 @@ def judge(ctx, lines, stats):
     for d in lines:
         if d["op"] == "Init":
             cur = d
-            ctx.count_case((d["run"], d["withid"], json.dumps(d.get("sym") or d.get("entry")), d.get("k")), d["acc"] == 1)
+            ctx.count_case((d["run"], d["withid"], json.dumps(d.get("sym") or d.get("entry") or d.get("arch")), d.get("k")), d["acc"] == 1)
         elif d["op"] == "Open":
             ctx.oblig("C07.confined")
             ctx.oblig("C07.distinct")
         elif d["op"] == "Fs":
-            ctx.oblig("C07.created" if d["kind"] == "created" else "C07.remove")
+            ctx.oblig({"created": "C07.created", "gone": "C07.remove", "modified": "C07.modified"}[d["kind"]])
     ctx.oblig("C07.created", stats.get("fs.created", 0) - stats.get("fs.created.logged", 0))  # inside creations not logged one by one
     ctx.oblig("C07.remove", 4 * (stats.get("init.fs", 0) + stats.get("init.sess", 0) + stats.get("init.tar", 0)))  # 4 sentinels per run
+    ctx.oblig("C07.modified", 4 * (stats.get("init.fs", 0) + stats.get("init.sess", 0) + stats.get("init.tar", 0)))  # content of the 4 sentinels
     ctx.extra["violating_lines"] = len(viol)
+    ctx.extra["family_TL"] = {k: v for k, v in stats.items() if k.startswith("tl.")}
+    if not getattr(ctx, "replay", None) and (stats.get("tl.runs", 0) < 200 or stats.get("tl.model.escapes-if-links-were-recreated", 0) < 100):
+        raise vlib.MachineryError("vacuous run: family TL (archives with link entries) hardly exercised: %s" % ctx.extra["family_TL"])
     ctx.extra["model_prediction"] = {k[6:]: v for k, v in stats.items() if k.startswith("model.")}
     # family W: the model's acceptance prediction per parsing mode must agree with the code on every case where the code
     # REJECTS (a rejection the model does not predict = the near misses / hidden files are over-rejected: evidence only);
@@ -159,7 +178,17 @@ def judge(ctx, lines, stats):
         tag = viol[i]
         sym = cur.get("sym") or {}
         name = "".join(sym.get("name", [])) if sym else ""
-        if cur["run"] == "tar":
+        if cur["run"] == "tar" and cur.get("arch"):
+            # class of the archive: entry types in order, where the link points, where the following entry sits
+            arch = cur["arch"]
+            lk = [e for e in arch if e["typ"] in ("sym", "hard")]
+            tgt = "none"
+            if lk:
+                e = lk[-1]
+                tgt = "inside" if e["up"] == 0 and e["down"] else "dest-itself" if e["up"] == 0 else "outside-up%d%s" % (e["up"], "-file" if any(
+                    c in (["#keep"], ["#up1"], ["#up2"]) for c in e["down"]) else "-dir")
+            cls = "tar-seq types=%s link-target=%s" % ("+".join(e["typ"] for e in arch), tgt)
+        elif cur["run"] == "tar":
             # class of the entry name, not the name itself (one verdict per class: a broken prefix check hits hundreds of names)
             kinds = sorted({"empty" if not c else "dot" if c == ["D"] else "dotdot" if c == ["D", "D"] else "other" for c in cur.get("entry", [])})
             cls = "tar entry-kinds=" + "+".join(kinds)
@@ -179,12 +208,12 @@ def judge(ctx, lines, stats):
     for sig, xs in sorted(seen.items()):
         cur, d = xs[0]
         tag = sig.split()[0][4:]
-        ctx.sample({"signature": sig, "count": len(xs), "torrent": cur.get("sym") or cur.get("entry"), "path": symstr(d["path"])})
+        ctx.sample({"signature": sig, "count": len(xs), "torrent": cur.get("sym") or cur.get("entry") or cur.get("names"), "path": symstr(d["path"])})
         ctx.violation(tag, sig,
                       "%d recorded path(s) violate %s; first: run=%s layout=%s symbolic torrent=%s path=%s" % (
-                          len(xs), tag, cur["run"], "with-id" if cur["withid"] else "no-id", json.dumps(cur.get("sym") or cur.get("entry")),
+                          len(xs), tag, cur["run"], "with-id" if cur["withid"] else "no-id", json.dumps(cur.get("sym") or cur.get("entry") or cur.get("names")),
                           symstr(d["path"])),
-                      {"count": len(xs), "init": cur, "event": d, "others": [json.dumps(c.get("sym") or c.get("entry")) for c, _ in xs[1:8]]})
+                      {"count": len(xs), "init": cur, "event": d, "others": [json.dumps(c.get("sym") or c.get("entry") or c.get("names")) for c, _ in xs[1:8]]})
     ok_lines = sum(1 for i, d in enumerate(lines, 1) if d["op"] in ("Open", "Fs") and i not in viol)
     ctx.extra["confined_paths_judged"] = ok_lines
     if lines:
